@@ -5,6 +5,7 @@
 // interleavings are explored (two points per operation), no bound.
 #include "global.hpp"
 
+#include <cerrno>
 #include <pthread.h>
 
 #include <algorithm>
@@ -32,13 +33,15 @@ using Db = unodb::mutex_db<std::uint64_t, unodb::value_view>;
 extern "C" {
 int real_pthread_mutex_lock(pthread_mutex_t*);
 int real_pthread_mutex_unlock(pthread_mutex_t*);
+int real_pthread_mutex_trylock(pthread_mutex_t*);
 }
 __asm__(".symver real_pthread_mutex_lock,__pthread_mutex_lock@GLIBC_2.2.5");
 __asm__(".symver real_pthread_mutex_unlock,__pthread_mutex_unlock@GLIBC_2.2.5");
+__asm__(".symver real_pthread_mutex_trylock,__pthread_mutex_trylock@GLIBC_2.2.5");
 
 namespace {
 
-enum OpKind { OP_GET, OP_GET_HOLD, OP_INSERT, OP_REMOVE, OP_EMPTY, OP_CLEAR, OP_SCAN };
+enum OpKind { OP_GET, OP_GET_HOLD, OP_INSERT, OP_REMOVE, OP_EMPTY, OP_CLEAR, OP_SCAN, OP_SCAN_FROM, OP_SCAN_RANGE };
 
 struct Op {
   OpKind kind;
@@ -106,6 +109,8 @@ std::string describe() {
         os << (e.ok ? " true" : " false");
         break;
       case OP_SCAN:
+      case OP_SCAN_FROM:
+      case OP_SCAN_RANGE:
         os << " n=" << e.scan.size();
         break;
       default:
@@ -143,6 +148,18 @@ void sched_lock() {
   if (ei >= 0) ++H.events[static_cast<std::size_t>(ei)].lock_acquisitions;
 }
 
+// try_lock: one scheduling point, then an immediate answer (never waits)
+int sched_trylock() {
+  vsched::Worker& w = *vsched::tl_worker;
+  static std::uint64_t word;
+  g_sched.point(w, vsched::HK_MUTEX_LOCK, &word, 8, 0);
+  if (H.owner != -1) return EBUSY;
+  H.owner = w.id;
+  const int ei = H.cur_event[static_cast<std::size_t>(w.id)];
+  if (ei >= 0) ++H.events[static_cast<std::size_t>(ei)].lock_acquisitions;
+  return 0;
+}
+
 void sched_unlock() {
   vsched::Worker& w = *vsched::tl_worker;
   static std::uint64_t word;
@@ -160,6 +177,10 @@ int pthread_mutex_lock(pthread_mutex_t* m) {
     return 0;
   }
   return real_pthread_mutex_lock(m);
+}
+int pthread_mutex_trylock(pthread_mutex_t* m) {
+  if (managed(m)) return sched_trylock();
+  return real_pthread_mutex_trylock(m);
 }
 int pthread_mutex_unlock(pthread_mutex_t* m) {
   if (managed(m)) {
@@ -271,16 +292,21 @@ void worker_main(int t) {
         close_event(t);
         break;
       }
-      case OP_SCAN: {
+      case OP_SCAN:
+      case OP_SCAN_FROM:
+      case OP_SCAN_RANGE: {
         std::vector<std::pair<std::uint64_t, std::string>> seq;
-        H.db->scan([&seq](const unodb::visitor<Db::iterator>& v) {
+        auto fn = [&seq](const unodb::visitor<Db::iterator>& v) {
           const auto kv = v.get_key();
           std::uint64_t k = 0;
           for (std::size_t j = 0; j < kv.size() && j < 8; ++j) k = (k << 8) | static_cast<std::uint64_t>(kv[j]);
           const auto vv = v.get_value();
           seq.emplace_back(k, std::string(reinterpret_cast<const char*>(vv.data()), vv.size()));
           return false;
-        });
+        };
+        if (op.kind == OP_SCAN) H.db->scan(fn);
+        else if (op.kind == OP_SCAN_FROM) H.db->scan_from(op.key, fn);
+        else H.db->scan_range(op.key, std::uint64_t{3}, fn);  // [key, 3): forward over the whole key space used
         Event& e = end_event(t);
         e.scan = seq;
         close_event(t);
@@ -344,8 +370,11 @@ struct Lin {
           match = true;
           c2.clear();
           break;
-        case OP_SCAN: {
-          std::vector<std::pair<std::uint64_t, std::string>> want(c2.begin(), c2.end());
+        case OP_SCAN:
+        case OP_SCAN_FROM:
+        case OP_SCAN_RANGE: {
+          // scan: everything; scan_from(k): keys >= k; scan_range(k, 3): keys in [k, 3) = keys >= k here
+          std::vector<std::pair<std::uint64_t, std::string>> want(e.op->kind == OP_SCAN ? c2.begin() : c2.lower_bound(e.op->key), c2.end());
           match = want == e.scan;
           break;
         }
@@ -446,6 +475,8 @@ Op parse_op(const std::string& t) {
   else if (k == "e") op.kind = OP_EMPTY;
   else if (k == "c") op.kind = OP_CLEAR;
   else if (k == "s") op.kind = OP_SCAN;
+  else if (k == "f") op.kind = OP_SCAN_FROM;
+  else if (k == "R") op.kind = OP_SCAN_RANGE;
   else std::exit(vsched::EXIT_USAGE);
   if (f.size() > 1) op.key = std::stoull(f[1], nullptr, 16);
   return op;
